@@ -362,7 +362,7 @@ impl Run {
                             failure_persistence: None,
                             rng_seed: RngSeed::Fixed(seed),
                             max_shrink_iters: 20000,
-                            max_shrink_time: 0,
+                            max_shrink_time: 45_000,
                             verbose: 0,
                             ..Config::default()
                         };
